@@ -381,13 +381,14 @@ def growth(ctx, b, tb, bi, base, new, site):
             continue
         # duplicate exit returns self
         if g.kind in ('all', 'any'):
+            # where control goes when the quantified test reports a duplicate, and what is returned from there
             dupv = (g.kind == 'any')
-            reach = reach_under(b, tb, {g.term: dupv})
-            other = reach_under(b, tb, {g.term: not dupv})
-            dup_rets = [strip_sites(detry(t)) for bi2, si2, t in ret_defs(tb) if bi2 in reach and bi2 not in other]
+            edges, _blocks, _gs = passing_edges(b, tb, lambda x, g=g: strip_sites(x) == g.term, dupv)
+            dup_rets = []
+            for src, dst in sorted(edges):
+                dup_rets += [strip_sites(detry(t)) for bi2, si2, t in ret_values_under(b, tb, {g.term: dupv}, start=dst)]
         else:
-            reach = reach_under(b, tb, {atoms[0]: eq_is}, start=g.some, stop_blocks=[g.header])
-            dup_rets = [strip_sites(detry(t)) for bi2, si2, t in ret_defs(tb) if bi2 in reach]
+            dup_rets = [strip_sites(detry(t)) for bi2, si2, t in ret_values_under(b, tb, {atoms[0]: eq_is}, start=g.some, stop_blocks=[g.header])]
         good = dup_rets and all(r == ('agg', 'core::result::Result', 'Ok', (P1,), ('0',)) or r == P1 for r in dup_rets)
         if good:
             ctx.ok('C04.3', site, 'grown only when no existing assertion has the new element\'s digest (%s; %s); duplicate exit returns self' % (g.describe(), g.info), sample=fmt(atoms[0]))
